@@ -410,6 +410,7 @@ class Frame:
         self.cur_exc = None
         self.old_env = None
         self.top = parent is None
+        self.loop_vars = {}    # IDX<n> / SEQ<n> of the enclosing loops (readable in invariants of inner loops)
 
     def lookup(self, name):
         f = self
